@@ -938,10 +938,16 @@ func (s *Server) cleanupLoop(ctx context.Context) {
 			if timeout == 0 {
 				timeout = 5 * time.Minute
 			}
-			removed := s.sessions.CleanupExpired(timeout)
-			if removed > 0 {
+			removed := s.sessions.CleanupExpiredSessions(timeout)
+			for _, session := range removed {
+				// Release IP
+				if s.clientIPPool != nil {
+					s.clientIPPool.Release(session.SessionID)
+				}
+			}
+			if len(removed) > 0 {
 				s.logger.Info("Cleaned up expired PPPoE sessions",
-					zap.Int("count", removed),
+					zap.Int("count", len(removed)),
 				)
 			}
 		}
